@@ -167,7 +167,7 @@ fn gen_line(rng: &mut Rng, c: &Case, dir: &[u8], odd: bool) -> String {
         .collect();
     match rng.below(24) {
         0 => return "# comment".into(),
-        1 => return ["", "  ", "#", "\\#a", "\\!a", "!", "/", "*", "**", "**/", "/*", "*/", "/**", "!*", "!*/"][rng.below(15)].into(),
+        1 => return ["", "  ", "#", "\\#a", "\\!a", "!", "/", "*", "**", "**/", "/*", "*/", "/**", "!*", "!*/", "!/", "! ", "\\/"][rng.below(if odd { 18 } else { 17 })].into(),
         _ => {}
     }
     let (rel, is_dir) = if below.is_empty() || rng.chance(1, 8) {
@@ -390,8 +390,9 @@ fn classify(c: &Case) -> &'static str {
                 return "bracket-class-admits-slash";
             }
             let t = l.trim_end();
-            if t == "!" {
-                return "lone-bang-whitelists-everything";
+            let t = t.strip_prefix('!').unwrap_or(t);
+            if t == "\\/" {
+                return "escaped-slash-only-line-ignores-directories";
             }
         }
     }
@@ -689,7 +690,7 @@ fn main() {
     }
     if args.replay.is_none() {
         let mut rng = Rng::new(args.seed);
-        let n = args.cases.unwrap_or(if args.thorough { 30000 } else { 1500 });
+        let n = args.cases.unwrap_or(if args.thorough { 20000 } else { 1500 });
         for i in 0..n {
             let c = gen_case(&mut rng);
             if i < 4 {
